@@ -26,7 +26,10 @@ def run(argv):
     import logging
 
     try:
-        ui().main([str(a) for a in argv])
+        rv = ui().main([str(a) for a in argv])
+        if rv not in (None, 0):
+            # what the launcher hands to sys.exit(): a failure as the shell sees it, even without an exception
+            return ("exit", rv)
         return ("ok",)
     except SystemExit as e:  # argparse
         return ("exit", e.code)
